@@ -1,13 +1,322 @@
-import SeedModel.Eval
+/-
+  C07 — control flow: branches, loops, break/continue/return reach exactly their target.
+-/
+import SeedProofs.Global
+import SeedProofs.C01
+import SeedProofs.Lemmas.Located
 namespace Seed.C07
+open Seed
 
-/-- `break`, `continue` and `return` statements evaluate to the corresponding escape and leave the state alone -/
+/-! ### generic consequence of G1 -/
+
+theorem le_eq {α} {r r' : Res α} (h : Res.Le r r') (hr : r ≠ .timeout) : r' = r := by
+  rcases h with h | h
+  · exact absurd h hr
+  · exact h.symm
+
+theorem stmt_mono {n m : Nat} {σ sc st} {r : Res Escape} (h : evalStmt n σ sc st = r) (hr : r ≠ .timeout) (hnm : n ≤ m) :
+    evalStmt m σ sc st = r := by
+  have := Res.Le.of_step (fun k => evalStmt k σ sc st) (fun k => (monoAll k).evalStmt σ sc st) hnm
+  rw [← h] at hr ⊢; exact le_eq this hr
+
+theorem stmts_mono {n m : Nat} {σ sc ss} {r : Res Escape} (h : evalStmts n σ sc ss = r) (hr : r ≠ .timeout) (hnm : n ≤ m) :
+    evalStmts m σ sc ss = r := evalStmts_fuel_mono h hr hnm
+
+theorem bool_mono {n m : Nat} {σ sc d e} {r : Res Bool} (h : evalToBool n σ sc d e = r) (hr : r ≠ .timeout) (hnm : n ≤ m) :
+    evalToBool m σ sc d e = r := by
+  have := Res.Le.of_step (fun k => evalToBool k σ sc d e) (fun k => (monoAll k).evalToBool σ sc d e) hnm
+  rw [← h] at hr ⊢; exact le_eq this hr
+
+/-! ### one-step facts: what each construct does with an escape -/
+
+/-- `break`, `continue` evaluate to the corresponding escape and leave the state alone -/
 theorem break_escapes (n : Nat) (σ : State) (sc : List Addr) (l : Loc) :
-    evalStmt (n + 1) σ sc (.Break l) = .ok (.brk l) σ := by
-  rw [evalStmt]
+    evalStmt (n + 1) σ sc (.Break l) = .ok (.brk l) σ := by unfold evalStmt; rfl
 
 theorem continue_escapes (n : Nat) (σ : State) (sc : List Addr) (l : Loc) :
-    evalStmt (n + 1) σ sc (.Continue l) = .ok (.cont l) σ := by
-  rw [evalStmt]
+    evalStmt (n + 1) σ sc (.Continue l) = .ok (.cont l) σ := by unfold evalStmt; rfl
+
+/-- `return e` evaluates `e` once and escapes with its value -/
+theorem return_escapes (n : Nat) (σ σ' : State) (sc : List Addr) (l : Loc) (e : Expr) (v : SVal)
+    (h : evalExpr n σ sc e = .ok v σ') : evalStmt (n + 1) σ sc (.Return l e) = .ok (.ret v l) σ' := by
+  unfold evalStmt; simp [h, Res.bind]
+
+/-- statements after an escaping statement in the same body do not run -/
+theorem escape_skips_rest (n : Nat) (σ σ' : State) (sc : List Addr) (st : Stmt) (rest : List Stmt) (esc : Escape)
+    (h : evalStmt n σ sc st = .ok esc σ') (hesc : esc ≠ .none) :
+    evalStmts (n + 1) σ sc (st :: rest) = .ok esc σ' := by
+  cases esc with
+  | none => exact absurd rfl hesc
+  | brk l => unfold evalStmts; simp only [h, Res.bind]
+  | cont l => unfold evalStmts; simp only [h, Res.bind]
+  | ret v l => unfold evalStmts; simp only [h, Res.bind]
+
+/-- a statement that completes normally hands over to the rest of the body -/
+theorem normal_continues (n : Nat) (σ σ' : State) (sc : List Addr) (st : Stmt) (rest : List Stmt)
+    (h : evalStmt n σ sc st = .ok .none σ') : evalStmts (n + 1) σ sc (st :: rest) = evalStmts n σ' sc rest := by
+  conv => lhs; unfold evalStmts
+  simp only [h, Res.bind]
+
+/-- a bare block forwards whatever its statements produce, escape included (this is what the pinned tree got wrong) -/
+theorem block_forwards (n : Nat) (σ : State) (sc : List Addr) (b : List Stmt) :
+    evalStmt (n + 1) σ sc (.Block b) = evalBlock n σ sc [] b := by unfold evalStmt; rfl
+
+/-- a block with no bindings: a fresh scope cell, then the statements on the extended chain -/
+theorem block_fresh_scope (n : Nat) (σ : State) (sc : List Addr) (b : List Stmt) :
+    evalBlock (n + 2) σ sc [] b = evalStmts (n + 1) (σ.alloc (.scope [])).2 ((σ.alloc (.scope [])).1 :: sc) b := by
+  conv => lhs; unfold evalBlock
+  have h : declareAll (n + 1) (σ.alloc (.scope [])).2 ((σ.alloc (.scope [])).1 :: sc) [] = .ok () (σ.alloc (.scope [])).2 := by
+    conv => lhs; unfold declareAll
+    all_goals (try rfl)
+  simp only [h, Res.bind]
+  all_goals (try rfl)
+
+/-- an `if` chain: conditions are evaluated in order; the first true one selects its block, whose result (escape
+    included) is the result of the statement; later conditions are not evaluated -/
+theorem if_cons (n : Nat) (σ : State) (sc : List Addr) (cond : Expr) (stmts : List Stmt) (r : List Branch) (els : Option (List Stmt)) :
+    evalIf (n + 1) σ sc (.mk cond stmts :: r) els =
+      (evalToBool n σ sc c!"condition" cond).bind fun b σ1 =>
+        if b then evalBlock n σ1 sc [] stmts else evalIf n σ1 sc r els := by
+  conv => lhs; unfold evalIf
+  all_goals (try rfl)
+
+theorem if_true_selects (n : Nat) (σ σ1 : State) (sc : List Addr) (cond : Expr) (stmts : List Stmt) (r : List Branch)
+    (els : Option (List Stmt)) (h : evalToBool n σ sc c!"condition" cond = .ok true σ1) :
+    evalIf (n + 1) σ sc (.mk cond stmts :: r) els = evalBlock n σ1 sc [] stmts := by
+  rw [if_cons, h]; simp [Res.bind]
+
+theorem if_false_moves_on (n : Nat) (σ σ1 : State) (sc : List Addr) (cond : Expr) (stmts : List Stmt) (r : List Branch)
+    (els : Option (List Stmt)) (h : evalToBool n σ sc c!"condition" cond = .ok false σ1) :
+    evalIf (n + 1) σ sc (.mk cond stmts :: r) els = evalIf n σ1 sc r els := by
+  rw [if_cons, h]; simp [Res.bind]
+
+theorem if_else (n : Nat) (σ : State) (sc : List Addr) (stmts : List Stmt) :
+    evalIf (n + 1) σ sc [] (some stmts) = evalBlock n σ sc [] stmts := by unfold evalIf; rfl
+
+theorem if_no_branch (n : Nat) (σ : State) (sc : List Addr) : evalIf (n + 1) σ sc [] none = .ok .none σ := by
+  unfold evalIf; rfl
+
+/-- `while`: the condition is evaluated before every iteration; `break` ends the loop normally, `continue` and normal
+    completion re-enter it, `return` is forwarded -/
+theorem while_step (n : Nat) (σ : State) (sc : List Addr) (cond : Expr) (stmts : List Stmt) :
+    evalWhile (n + 1) σ sc cond stmts =
+      (evalToBool n σ sc c!"condition" cond).bind fun b σ1 =>
+        if !b then .ok .none σ1
+        else (evalBlock n σ1 sc [] stmts).bind fun esc σ2 =>
+          match esc with
+          | .none => evalWhile n σ2 sc cond stmts
+          | .brk _ => .ok .none σ2
+          | .cont _ => evalWhile n σ2 sc cond stmts
+          | .ret v l => .ok (.ret v l) σ2 := by
+  conv => lhs; unfold evalWhile
+  all_goals (try rfl)
+
+/-- `for` walks the list of pairs computed once at entry (a snapshot: the pairs are a parameter of the loop, the
+    container is not consulted again), binding the two-element list `[key, value]` in a fresh scope each time -/
+theorem for_step (n : Nat) (σ : State) (sc : List Addr) (lhs : Expr) (k v : SVal) (r : List (SVal × SVal)) (stmts : List Stmt) :
+    evalFor (n + 1) σ sc lhs ((k, v) :: r) stmts =
+      (evalBlock n (σ.alloc (.list [k, v])).2 sc [(lhs, SVal.plain (.list (σ.alloc (.list [k, v])).1))] stmts).bind fun esc σ2 =>
+        match esc with
+        | .none => evalFor n σ2 sc lhs r stmts
+        | .brk _ => .ok .none σ2
+        | .cont _ => evalFor n σ2 sc lhs r stmts
+        | .ret v l => .ok (.ret v l) σ2 := by
+  conv => lhs; unfold evalFor
+  all_goals (try rfl)
+
+theorem for_done (n : Nat) (σ : State) (sc : List Addr) (lhs : Expr) (stmts : List Stmt) :
+    evalFor (n + 1) σ sc lhs [] stmts = .ok .none σ := by unfold evalFor; rfl
+
+/-- the snapshot: a list is walked by index, a string byte by byte, an object by ascending key (its stored order) -/
+theorem pairs_of_list (σ : State) (a : Addr) (items : List SVal) (h : σ.getList a = some items) :
+    toPairs σ (.list a) = some (some ((enumFrom 0 items).map fun (i, x) => (SVal.plain (.int (Int.ofNat i)), x))) := by
+  simp [toPairs, h]
+
+theorem pairs_of_obj (σ : State) (a : Addr) (m : ObjMap) (h : σ.getObj a = some m) :
+    toPairs σ (.obj a) = some (some (m.map fun (k, x) => (SVal.plain (.str (utf8Encode k)), x))) := by
+  simp [toPairs, h]
+
+theorem pairs_of_str (σ : State) (bs : Bytes) :
+    toPairs σ (.str bs) = some (some ((enumFrom 0 bs).map fun (i, b) => (SVal.plain (.int (Int.ofNat i)), SVal.plain (.str [b])))) := by
+  simp [toPairs]
+
+/-- outside any loop or function the three jumps are reported as located errors, not ignored -/
+theorem toplevel_jump_is_error (n : Nat) (stmts : List Stmt) (σ : State) (esc : Escape) (hesc : esc ≠ .none)
+    (h : evalBlock n State.init [] [(.mk (.Var c!"print") (0, 0), SVal.plain (.builtin c!"print" .print))] stmts = .ok esc σ) :
+    ∃ e, evalProg n stmts = .err e σ ∧ Located e := by
+  unfold evalProg
+  simp only [h, Res.bind]
+  cases esc with
+  | none => exact absurd rfl hesc
+  | brk l => exact ⟨_, rfl, trivial⟩
+  | cont l => exact ⟨_, rfl, trivial⟩
+  | ret v l => exact ⟨_, rfl, trivial⟩
+
+/-! ### jumps through any depth of blocks, branches and statement prefixes -/
+
+/-- a nesting of: a completed statement prefix (and an ignored suffix), a bare block, a chosen `if` branch (after
+    any number of branches whose conditions were false) or the `else` block -/
+inductive JCtx where
+  | hole
+  | seq (pre : List Stmt) (c : JCtx) (post : List Stmt)
+  | block (c : JCtx)
+  | ifBranch (falses : List Branch) (cond : Expr) (c : JCtx) (later : List Branch) (els : Option (List Stmt))
+  | ifElse (falses : List Branch) (c : JCtx)
+
+/-- the body obtained by putting the jump statement `j` in the hole -/
+def JCtx.plug : JCtx → Stmt → List Stmt
+  | .hole, j => [j]
+  | .seq pre c post, j => pre ++ c.plug j ++ post
+  | .block c, j => [.Block (c.plug j)]
+  | .ifBranch falses cond c later els, j => [.If (falses ++ .mk cond (c.plug j) :: later) els]
+  | .ifElse falses c, j => [.If falses (some (c.plug j))]
+
+/-- the conditions of these branches all evaluate to `false`, one after the other -/
+inductive AllFalse : State → List Addr → List Branch → State → Prop where
+  | nil (σ sc) : AllFalse σ sc [] σ
+  | cons {σ σ1 σ2 sc cond stmts r} (n : Nat) (h : evalToBool n σ sc c!"condition" cond = .ok false σ1)
+      (t : AllFalse σ1 sc r σ2) : AllFalse σ sc (.mk cond stmts :: r) σ2
+
+/-- the path to the hole is taken: prefixes complete normally, chosen conditions are true; `σ'`/`sc'` are the state and
+    scope chain in which the jump statement itself is evaluated -/
+inductive Taken : JCtx → State → List Addr → State → List Addr → Prop where
+  | hole (σ sc) : Taken .hole σ sc σ sc
+  | seq {pre c post σ σ1 σ' sc sc'} (n : Nat) (h : evalStmts n σ sc pre = .ok .none σ1) (t : Taken c σ1 sc σ' sc') :
+      Taken (.seq pre c post) σ sc σ' sc'
+  | block {c σ σ' sc sc'} (t : Taken c (σ.alloc (.scope [])).2 ((σ.alloc (.scope [])).1 :: sc) σ' sc') :
+      Taken (.block c) σ sc σ' sc'
+  | ifBranch {falses cond c later els σ σ1 σ2 σ' sc sc'} (n : Nat) (hf : AllFalse σ sc falses σ1)
+      (h : evalToBool n σ1 sc c!"condition" cond = .ok true σ2)
+      (t : Taken c (σ2.alloc (.scope [])).2 ((σ2.alloc (.scope [])).1 :: sc) σ' sc') :
+      Taken (.ifBranch falses cond c later els) σ sc σ' sc'
+  | ifElse {falses c σ σ1 σ' sc sc'} (hf : AllFalse σ sc falses σ1)
+      (t : Taken c (σ1.alloc (.scope [])).2 ((σ1.alloc (.scope [])).1 :: sc) σ' sc') :
+      Taken (.ifElse falses c) σ sc σ' sc'
+
+theorem stmts_append_none {n m : Nat} {σ σ1 sc pre rest} {r : Res Escape}
+    (h1 : evalStmts n σ sc pre = .ok .none σ1) (h2 : evalStmts m σ1 sc rest = r) (hr : r ≠ .timeout) :
+    ∃ k, evalStmts k σ sc (pre ++ rest) = r := by
+  induction pre generalizing n σ with
+  | nil =>
+    cases n with
+    | zero => unfold evalStmts at h1; simp at h1
+    | succ n =>
+      unfold evalStmts at h1; simp at h1; subst h1
+      exact ⟨m, h2⟩
+  | cons st pre ih =>
+    cases n with
+    | zero => unfold evalStmts at h1; simp at h1
+    | succ n =>
+      unfold evalStmts at h1
+      cases hst : evalStmt n σ sc st with
+      | timeout => simp [hst, Res.bind] at h1
+      | err e σ2 => simp [hst, Res.bind] at h1
+      | crash w σ2 => simp [hst, Res.bind] at h1
+      | ok esc σ2 =>
+        cases esc with
+        | none =>
+          simp only [hst, Res.bind] at h1
+          obtain ⟨k, hk⟩ := ih h1
+          refine ⟨max n k + 1, ?_⟩
+          rw [List.cons_append, normal_continues _ _ _ _ _ _ (stmt_mono hst (by simp) (Nat.le_max_left n k))]
+          exact stmts_mono hk hr (Nat.le_max_right n k)
+        | brk l => simp [hst, Res.bind] at h1
+        | cont l => simp [hst, Res.bind] at h1
+        | ret v l => simp [hst, Res.bind] at h1
+
+theorem stmts_escape_ignores_suffix {n : Nat} {σ σ' sc ss post} {esc : Escape}
+    (h : evalStmts n σ sc ss = .ok esc σ') (hesc : esc ≠ .none) : ∃ k, evalStmts k σ sc (ss ++ post) = .ok esc σ' := by
+  refine ⟨n, ?_⟩
+  induction ss generalizing n σ with
+  | nil =>
+    cases n with
+    | zero => unfold evalStmts at h; simp at h
+    | succ n => unfold evalStmts at h; simp at h; exact absurd h.1.symm hesc
+  | cons st ss ih =>
+    cases n with
+    | zero => unfold evalStmts at h; simp at h
+    | succ n =>
+      rw [List.cons_append]
+      unfold evalStmts at h ⊢
+      cases hst : evalStmt n σ sc st with
+      | timeout => simp [hst, Res.bind] at h
+      | err e σ2 => simp [hst, Res.bind] at h
+      | crash w σ2 => simp [hst, Res.bind] at h
+      | ok e2 σ2 =>
+        cases e2 with
+        | none =>
+          simp only [hst, Res.bind] at h ⊢
+          exact ih h
+        | brk l => simpa [hst, Res.bind] using h
+        | cont l => simpa [hst, Res.bind] using h
+        | ret v l => simpa [hst, Res.bind] using h
+
+theorem if_mono {n m : Nat} {σ sc bs els} {r : Res Escape} (h : evalIf n σ sc bs els = r) (hr : r ≠ .timeout) (hnm : n ≤ m) :
+    evalIf m σ sc bs els = r := by
+  have := Res.Le.of_step (fun k => evalIf k σ sc bs els) (fun k => (monoAll k).evalIf σ sc bs els) hnm
+  rw [← h] at hr ⊢; exact le_eq this hr
+
+theorem allFalse_if {σ σ1 sc falses} (hf : AllFalse σ sc falses σ1) (rest : List Branch) (els : Option (List Stmt))
+    {m : Nat} {r : Res Escape} (h : evalIf m σ1 sc rest els = r) (hr : r ≠ .timeout) :
+    ∃ k, evalIf k σ sc (falses ++ rest) els = r := by
+  induction hf with
+  | nil σ sc => exact ⟨m, h⟩
+  | cons n hb _ ih =>
+    obtain ⟨k, hk⟩ := ih h
+    refine ⟨max n k + 1, ?_⟩
+    rw [List.cons_append, if_false_moves_on _ _ _ _ _ _ _ _ (bool_mono hb (by simp) (Nat.le_max_left n k))]
+    exact if_mono hk hr (Nat.le_max_right n k)
+
+/-- **Jumps reach exactly their target, at any depth.**  If the path to the hole is taken and the jump statement `j`,
+    evaluated in the state and scope reached there, escapes with `esc`, then the whole body escapes with the same `esc`
+    in the same state: no enclosing block, branch or statement prefix absorbs, alters or delays it, and nothing after
+    it runs. -/
+theorem jump_through_ctx (C : JCtx) (j : Stmt) {σ σ' σ'' : State} {sc sc' : List Addr} {esc : Escape}
+    (ht : Taken C σ sc σ' sc') {n : Nat} (hj : evalStmt n σ' sc' j = .ok esc σ'') (hesc : esc ≠ .none) :
+    ∃ k, evalStmts k σ sc (C.plug j) = .ok esc σ'' := by
+  induction ht with
+  | hole σ sc => exact ⟨n + 1, escape_skips_rest n _ _ _ _ [] esc hj hesc⟩
+  | @seq pre c post σ0 σ1 σ2 sc0 sc1 n1 h1 _ ih =>
+    obtain ⟨k, hk⟩ := ih hj
+    obtain ⟨k2, hk2⟩ := stmts_escape_ignores_suffix (post := post) hk hesc
+    obtain ⟨k3, hk3⟩ := stmts_append_none h1 hk2 (by simp)
+    exact ⟨k3, by simpa [JCtx.plug, List.append_assoc] using hk3⟩
+  | @block c σ0 σ1 sc0 sc1 _ ih =>
+    obtain ⟨k, hk⟩ := ih hj
+    refine ⟨k + 4, ?_⟩
+    have h1 : evalStmt (k + 3) σ0 sc0 (.Block (c.plug j)) = .ok esc σ'' := by
+      rw [block_forwards, block_fresh_scope]
+      exact stmts_mono hk (by simp) (Nat.le_succ k)
+    exact escape_skips_rest _ _ _ _ _ [] esc h1 hesc
+  | @ifBranch falses cond c later els σ0 σ1 σ2 σ3 sc0 sc1 n1 hf hb _ ih =>
+    obtain ⟨k, hk⟩ := ih hj
+    have hblock : evalBlock (max n1 k + 2) σ2 sc0 [] (c.plug j) = .ok esc σ'' := by
+      rw [block_fresh_scope]
+      exact stmts_mono hk (by simp) (by have := Nat.le_max_right n1 k; omega)
+    have hif : evalIf (max n1 k + 3) σ1 sc0 (.mk cond (c.plug j) :: later) els = .ok esc σ'' := by
+      rw [if_true_selects _ _ _ _ _ _ _ _ (bool_mono hb (by simp) (by have := Nat.le_max_left n1 k; omega))]
+      exact hblock
+    obtain ⟨k2, hk2⟩ := allFalse_if hf _ _ hif (by simp)
+    refine ⟨k2 + 2, ?_⟩
+    have h1 : evalStmt (k2 + 1) σ0 sc0 (.If (falses ++ .mk cond (c.plug j) :: later) els) = .ok esc σ'' := by
+      unfold evalStmt
+      exact hk2
+    exact escape_skips_rest _ _ _ _ _ [] esc h1 hesc
+  | @ifElse falses c σ0 σ1 σ2 sc0 sc1 hf _ ih =>
+    obtain ⟨k, hk⟩ := ih hj
+    have hblock : evalBlock (k + 2) σ1 sc0 [] (c.plug j) = .ok esc σ'' := by
+      rw [block_fresh_scope]
+      exact stmts_mono hk (by simp) (Nat.le_succ k)
+    have hif : evalIf (k + 3) σ1 sc0 [] (some (c.plug j)) = .ok esc σ'' := by rw [if_else]; exact hblock
+    obtain ⟨k2, hk2⟩ := allFalse_if hf [] _ hif (by simp)
+    refine ⟨k2 + 2, ?_⟩
+    have h1 : evalStmt (k2 + 1) σ0 sc0 (.If falses (some (c.plug j))) = .ok esc σ'' := by
+      unfold evalStmt
+      simpa using hk2
+    exact escape_skips_rest _ _ _ _ _ [] esc h1 hesc
+
+/-- non-vacuity: the context `{ { □ } }` is taken from any state -/
+example (σ : State) (sc : List Addr) : ∃ σ' sc', Taken (.block (.block .hole)) σ sc σ' sc' :=
+  ⟨_, _, Taken.block (Taken.block (Taken.hole _ _))⟩
 
 end Seed.C07
